@@ -190,6 +190,7 @@ def _alias(c):
     c.declare("self", "SchemaFacade")
     n, t = c.sym("name"), c.sym("type_")
     c.requires(z3.And(S.is_schema(ct, t), S.wf(t), S.reach(t)), "target-schema")
+    c.requires(M.is_StrV(n), "name-is-a-str")      # type invariant of the input (alias(name: str, ...)); stored as given
     c.raises()
     c.returns("TypeAliasSchema")
     v = z3.Const("av3", Obj)
